@@ -436,6 +436,9 @@ def cmd_check(pid, tier, repo, only, keep, jobs):
                or (only and o.get("tier") == "experimental"))]
     if only:
         obs = [o for o in obs if only in o["name"]]
+    if not obs:
+        log("UNDECIDED property=%s no obligation selected (tier %s, only %r): nothing was checked" % (pid, tier, only))
+        return 2
     scratch = os.environ.get("VERIF_SCRATCH", "/var/tmp/weechess-verif.%s.%d" % (pid, os.getpid()))
     replay_dir = os.path.join(VERIF, "replays", pid)
     evidence_path = os.path.join(VERIF, "evidence", "%s.json" % pid)
